@@ -139,6 +139,7 @@ def run_impl(tp, d, o, method=False, keep=None):
     data = instantiate(d)
     if keep is not None: keep["data"] = data
     kw = dict(additional_properties=o["ap"], fall_back_on_default=o["fbod"], no_copy=o["nc"], coerce=o["coerce"])
+    if o.get("aliaser"): kw["aliaser"] = o["aliaser"]
     if o.get("schema"):
         from apischema import schema as _schema
         kw["schema"] = _schema(**{o["schema"][0]: eval(o["schema"][1]) if isinstance(o["schema"][1], str) and o["schema"][0] == "pattern" else o["schema"][1]})
@@ -233,7 +234,7 @@ def cons_names(t):
 def gen_cases(prop, seed, n_types, per):
     rnd = random.Random(seed * 1000003 + hash(prop) % 997 if False else seed * 1000003 + sum(map(ord, prop)))
     pool = Pool(); g = Gen(rnd, pool, KINDS_BY_PROP.get(prop))
-    if prop in ("C02", "C03", "C08") and not KINDS_BY_PROP.get(prop): g.kinds = g.kinds + ["depreq", "aggregate"]
+    if prop in ("C01", "C02", "C03", "C08") and not KINDS_BY_PROP.get(prop): g.kinds = g.kinds + ["depreq", "aggregate"]
     if prop == "C08": g.kinds = g.kinds + ["postinit", "postinit", "plain", "plain"]
     types = []
     for _ in range(n_types):
@@ -305,6 +306,7 @@ def evaluate(prop, t, tp, d, o, ns, mo):
         if jsonish and ik == "ok" and mo.get("image") is not None and sc.get("json"):
             if canon_model_val(mo["image"]) != im["ok"]: fails.append("value-is-not-the-typed-image")
         info["in_scope"] = bool((sc.get("acc") and sc.get("wf") or sc.get("accu") and sc.get("nouq") and sc.get("good")) and jsonish)
+        if jsonish and not o["coerce"] and ik in ("ok", "invalid"): aliaser_check(t, tp, d, o, im, fails, info)
     elif prop == "C02":
         if ik == "invalid" and im["invalid"] is not None:
             if mo.get("violations") is not None and modelled:
@@ -316,6 +318,7 @@ def evaluate(prop, t, tp, d, o, ns, mo):
                 if bad: fails.append("loc-is-not-a-path-of-external-names"); info["bad_loc"] = bad[:3]
             im2 = run_impl(tp, d, o)
             if im2 != im: fails.append("errors-not-deterministic")
+            if jsonish and not o["coerce"] and im["invalid"] is not None: aliaser_check(t, tp, d, o, im, fails, info)
             locs = [json.dumps(e) for e in im["invalid"]]
             # (alternatives of a union may each report the same message at the same place)
             if not ({"union", "optional"} & t.features()) and len(set(locs)) != len(locs): fails.append("violation-reported-twice")
@@ -416,6 +419,75 @@ def evaluate(prop, t, tp, d, o, ns, mo):
             ms = canon_model(mo["strict"])
             if not str(ms.get("crash", "")).startswith("ModelScope") and not same(st, ms): k_ok = False
     return im, m, k_ok, fails, info
+
+
+def _prefix_aliaser(s): return "al_" + s
+OBJ_KINDS = {"dataclass", "namedtuple", "typeddict"}
+
+
+class Ambiguous(Exception): pass
+
+
+def rename_keys(t, d, f):
+    """the datum `d`, with `f` applied to every key that is the external name of a field of the object type at that
+    position (type-directed; the keys of mappings, additional / pattern properties and unexpected keys are left alone).
+    Raises Ambiguous where a union does not determine which keys are field names."""
+    k = t.kind
+    if k in ("list", "set", "frozenset", "vtuple", "clist", "sequence"):
+        return [rename_keys(t.kids[0], x, f) for x in d] if isinstance(d, list) and t.kids and t.kids[0].kind != "cut" else d
+    if k == "tuple":
+        return [rename_keys(a, x, f) for a, x in zip(t.kids, d)] + list(d[len(t.kids):]) if isinstance(d, list) else d
+    if k in ("mapping", "cdict"):
+        return {kk: rename_keys(t.kids[-1], x, f) for kk, x in d.items()} if isinstance(d, dict) else d
+    if k == "optional": return d if d is None else rename_keys(t.kids[0], d, f)
+    if k == "newtype": return rename_keys(t.kids[0], d, f)
+    if k in ("union", "tuple_union"):
+        if not any(OBJ_KINDS & a.features() for a in t.kids): return d
+        if not has_dict(d): return d
+        cands = [a for a in t.kids if (OBJ_KINDS & a.features()) or a.kind in ("mapping", "cdict", "any")]
+        if len(cands) != 1 or not (OBJ_KINDS & cands[0].features()): raise Ambiguous()
+        return rename_keys(cands[0], d, f)
+    if hasattr(t, "fields"):
+        if not isinstance(d, dict): return d
+        by_alias = {fl["alias"]: fl for fl in t.fields}
+        agg = getattr(t, "aggregate", None)
+        out = {}
+        for kk, x in d.items():
+            if kk in by_alias: out[f(kk)] = rename_keys(by_alias[kk]["ty"], x, f)
+            elif agg and agg["kind"] == "flatten" and kk in ("x", "y"): out[f(kk)] = x
+            else: out[kk] = x
+        return out
+    return d
+
+
+def has_dict(d):
+    if isinstance(d, dict): return True
+    return isinstance(d, list) and any(has_dict(x) for x in d)
+
+
+def strip_prefix(x, p="al_"):
+    if isinstance(x, str): return x.replace(p, "")
+    if isinstance(x, list): return [strip_prefix(y, p) for y in x]
+    if isinstance(x, dict): return {strip_prefix(k, p): strip_prefix(v, p) for k, v in x.items()}
+    return x
+
+
+def aliaser_check(t, tp, d, o, im, fails, info):
+    """deserialize(T, d) and deserialize(T, d with every field name renamed by f, aliaser=f) have the same outcome (the
+    errors up to the renaming of their locations)"""
+    if not isinstance(d, (dict, list)) or has_other(d) or not (OBJ_KINDS & t.features()) or "recursive" in t.features(): return
+    try: d2 = rename_keys(t, instantiate(d), _prefix_aliaser)
+    except Ambiguous: return
+    al = run_impl(tp, d2, dict(o, aliaser=_prefix_aliaser))
+    info["aliaser_run"] = True
+    a, b = {k: v for k, v in im.items() if k != "msg"}, {k: v for k, v in al.items() if k != "msg"}
+    if "invalid" in a and "invalid" in b and a["invalid"] is not None and b["invalid"] is not None:
+        key = lambda e: json.dumps(e, sort_keys=True, default=str)
+        if sorted(map(key, a["invalid"])) != sorted(map(key, strip_prefix(b["invalid"]))):
+            fails.append("errors-differ-under-an-aliaser"); info["with_aliaser"] = b["invalid"][:4]; info["renamed_datum"] = repr(d2)[:200]
+    elif a != b:
+        fails.append("outcome-differs-under-an-aliaser:" + kind_of(im) + "->" + kind_of(al)); info["renamed_datum"] = repr(d2)[:200]
+        info["with_aliaser"] = repr(b)[:300]
 
 
 def _identity_coercer(cls, data): return data
@@ -549,7 +621,8 @@ def py_equal(a, b):
 
 RULES = {
     "C01": "generated (type, options, datum): types of depth <= 3 over every constructor of the grammar; data valid-by-construction "
-           "with boundary mutations in half of the cases; non-trivial = the type has a non-leaf constructor; distinct by (type term, datum, options)",
+           "with boundary mutations in half of the cases; every case over an object type is run a second time under a renaming aliaser with the field names of the datum renamed "
+           "(histogram aliaser-runs); non-trivial = the type has a non-leaf constructor; distinct by (type term, datum, options)",
     "C02": "as C01 with 90% mutated data; non-trivial = rejected with a non-empty error list on a type with a non-leaf constructor",
     "C03": "as C01 plus the malformed stream (non-JSON objects, JSON-class subclasses, huge ints, NaN/inf, non-string keys) and coercion in 40%; "
            "non-trivial = datum not JSON-shaped, or coercion on, on a type with a non-leaf constructor",
@@ -557,7 +630,8 @@ RULES = {
            "non-trivial = container or object type",
     "C13": "union-rooted types (2-3 alternatives, including alternatives sharing a JSON class) and unions nested in containers; each alternative "
            "is run separately on the real code; non-trivial = union-rooted",
-    "C14": "as C01 with coercible / nearly coercible leaves substituted in 80% of the data; every case run strict and coerced; "
+    "C14": "as C01 with coercible / nearly coercible leaves substituted in 80% of the data; every case run strict and coerced, a third also with a coercer that never converts and one "
+           "that returns wrong-typed values; "
            "non-trivial = strictly accepted or accepted only under coercion",
 }
 
@@ -688,6 +762,7 @@ def run(prop, seed, budget, ctx):
         hist["impl:" + kind_of(im)] += 1
         for f in t.features(): hist["ty:" + f] += 1
         if info.get("in_scope"): in_scope += 1
+        if info.pop("aliaser_run", None): hist["aliaser-runs"] += 1
         if k_ok is not None:
             k_checked += 1
             if not k_ok: k_bad += 1
